@@ -9,6 +9,10 @@ TRACE_MODULE = "Trace_C09"
 CONFIGS = [
     ("rh", [], 0, "full"),
     ("lh", ["-DGLM_FORCE_LEFT_HANDED"], 1, "part"),
+    # the handedness dispatchers read GLM_CONFIG_CLIP_CONTROL, which also carries the depth-range bit: both handednesses with the
+    # zero-to-one depth range as well (the depth range must not influence lookAt / rotate / ...)
+    ("rh_zo", ["-DGLM_FORCE_DEPTH_ZERO_TO_ONE"], 0, "part"),
+    ("lh_zo", ["-DGLM_FORCE_LEFT_HANDED", "-DGLM_FORCE_DEPTH_ZERO_TO_ONE"], 1, "part"),
 ]
 
 
@@ -31,7 +35,7 @@ def run(ctx):
         name, flags, req, load = cfg
         return cfg, ctx.build("c09_" + name, "c09.cpp", flags=list(flags) + have, label="c09 " + name)
 
-    built = vlib.pmap(one, CONFIGS, jobs=2)
+    built = vlib.pmap(one, CONFIGS, jobs=4)
     whole = ctx.scratch.path("c09.ndjson")
     with open(whole, "wb") as out:
         for (name, flags, req, load), b in built:
